@@ -32,11 +32,9 @@ TABLE = {
             "token prefix property directly.",
             "Inputs on which syn's own printer is not the identity (empty `<>`, `T:` without bounds) are excluded by the decidable, per-case checked hypothesis synStable.",
             "Lean 4 theorem (token-level append-only + splitter concatenation lemma) + real-output prefix check", "5/C02"),
-    "C03": ("Lean theorem T_C03 (partial): parameter types, lifetime parameters, return type, qualifiers and receiver form of every "
-            "generated method equal the source function's; lifted generic parameters are declared on the trait and named by the "
-            "impl in order. 'Compiles, including borrow checking' is rustc's judgement and is not proved.",
-            "partial: the compile/borrow-check half of the property is outside the model. Known finding C03.dupgeneric excluded by its class predicate.",
-            "Lean 4 theorem on signature identity + differential correspondence", "5/C03"),
+    "C03": ("Lean theorem T_C03 (under the decidable validity hypotheses identsOk and genericsOk): every generated method - trait declaration and delegating definition - has the source function's parameter types after the dependency token for token, the receiver the dependency parameter prescribes, the source's lifetime parameters, qualifiers, variadic, asyncness and return type; every where-predicate that is not a bound on the dependency's own type parameter stays in scope on the method; the trait declares exactly the lifted type/const parameters of the source functions (liftedParams) and the impl names them in order. The rustc half (the expansion compiles, incl. borrow checking of results borrowed from the dependency or arguments) is sampled by the compile-and-run probe p_c03_sigs.",
+            "partial: 'compiles' is rustc's judgement. Known finding C03.dupgeneric (also a kernel-checked witness theorem) tolerated only inside its class.",
+            'Lean 4 theorem on call-type identity and generic scoping + differential correspondence + rustc compile-and-run probe', "5/C03"),
     "C04": ("Lean theorem T_C04: the generated impl's own type parameter carries exactly Sync [+ Send iff some function takes the "
             "dependency by value] + 'static, its `Self:` predicate carries exactly the multiset of bounds declared on the dependency "
             "parameter (inline, where-clause, impl-trait, over all functions), every other predicate is a where-predicate the user wrote, "
@@ -60,11 +58,9 @@ TABLE = {
             "impl-block side - `impl<EntraitT..> Path<EntraitT, ..> for X where Impl<EntraitT>: deps` with bodies `Self::m(__impl, args)`.",
             "Trait selection (`T::Target`, `dyn` coercion) itself is rustc's.",
             "Lean 4 theorem + differential correspondence", "5/C07"),
-    "C08": ("Lean theorem T_C08: the generated trait's methods are, in order, the functions the module splitter classifies as visible "
-            "functions with a body; the trait is `pub(super)` or the requested visibility and re-exported by `vis use m::Trait;`. "
-            "The generator additionally knows by construction which entries are visible functions and the check compares against that.",
-            "The splitter's `syn::Signature` oracle is supplied by the harness and checked per case.",
-            "Lean 4 theorem + generator-side ground truth + differential correspondence", "5/C08"),
+    "C08": ('Lean theorems T_C08 / classify_fn / splitBody_print: the generated trait and impl have exactly one method per body entry the splitter classifies as a function, named like it, in source order; an entry is a function iff (after its outer attributes) it has a non-empty visibility, the following tokens look like a fn header, a signature parses there and is not followed by `;`; entries are contiguous slices of the top-level token trees of the body, so nothing inside a delimited group is looked at; the trait is named as requested, has visibility visFromInside(requested) and `vis use m::Trait;` follows the module. The generator additionally knows by construction which entries are visible functions (ground truth); importability from the parent for every visibility form is compiled by rustc in the probe p_c08_mod_visibility.',
+            "The splitter's syn::Signature oracle is supplied by the harness and checked per case.",
+            'Lean 4 theorem + generator-side ground truth + differential correspondence + rustc probe', "5/C08"),
     "C09": ("Lean theorem T_C09 (partial): name, visibility, generics, supertraits, where clause and every method (attributes and "
             "signature, modulo the documented async rewrite) of an entraited trait are re-emitted unchanged and only mock "
             "derivations are added.",
@@ -86,15 +82,12 @@ TABLE = {
             "to trait(s) and impl.",
             "Whether a particular future is Send is rustc's auto-trait inference.",
             "Lean 4 theorem + differential correspondence", "5/C12"),
-    "C13": ("Lean theorem T_C13: fn input - the trait's visibility tokens are the requested ones, independent of the fn's own; mod "
-            "input - pub(super) iff none requested, else the requested; trait input - re-emitted trait and delegation-target trait "
-            "carry the source trait's visibility. Exhaustive visibility lattice against the real macro.",
-            "Privacy checking of the tokens is rustc's.",
-            "Lean 4 theorem + exhaustive visibility lattice against the real macro", "5/C13"),
-    "C14": ("Lean theorem T_C14: unless dynamic dispatch was requested, no `dyn` / `Box` token occurs in the macro-written parts of "
-            "the expansion (bodies, bounds of the macro's type parameter, mock attributes) and bodies are single call expressions.",
-            "Allocation counts of compiled code are not modelled.",
-            "Lean 4 theorem + differential correspondence", "5/C14"),
+    "C13": ("Lean theorem T_C13: fn input - the trait's visibility tokens are exactly the requested ones (none if none), independent of the fn's own; mod input - visFromInside(requested): pub(super) if none, pub / crate-rooted unchanged, a restriction relative to the attribute's place re-based one level (lemma moduleVis_eq); trait input - re-emitted trait and delegation-target trait carry the source trait's visibility. Exhaustive requested x item visibility lattice against the real macro; privacy itself is checked by rustc in 1 positive and 2 must-not-compile probes.",
+            "Privacy checking of the tokens is rustc's (sampled by probes).",
+            'Lean 4 theorem + exhaustive visibility lattice against the real macro + rustc privacy probes', "5/C13"),
+    "C14": ("Lean theorem T_C14: unless dynamic dispatch was requested (delegate_by = ref/Borrow, #[entrait(ref)], async_trait) every delegating body is exactly one direct call, optionally awaited - f(self, ..), Self::f(__impl, ..), self.as_ref().m(..) or <EntraitT::Target as I<EntraitT>>::m(self, ..) -, the macro's type parameter carries only ::core::marker::Sync / Send / 'static, and the impl is for EntraitT, ::entrait::Impl<EntraitT> or the user's own type; with T_C12 (async declared as `-> impl Future`, never boxed). Allocation counts are measured by a counting global allocator in the probe p_c12_c14_async_alloc (direct call vs call through the trait, sync and async).",
+            "partial: allocation behaviour of compiled code is rustc's; sampled by the probe.",
+            'Lean 4 theorem (exact call shapes) + differential correspondence + counting-allocator probe', "5/C14"),
     "C15": ("Lean theorem T_C15: the model never reaches a panic site, for all attribute token lists and all items; documented "
             "misuses map to their messages. On the real side every case runs under catch_unwind, the generated region is re-parsed, "
             "and a malformed-input stream is included.",
@@ -115,15 +108,12 @@ TABLE = {
             "mirror the source method's attributes.",
             "Known finding C18.cfgfn.",
             "Lean 4 theorem + differential correspondence", "5/C18"),
-    "C19": ("Lean theorem T_C19: bounds on the macro's type parameter, the chosen self type and what the macro adds to T in trait "
-            "mode are absolute paths (or the user's own trait names); bodies are of the recognised absolute shapes.",
-            "Name resolution is rustc's.",
-            "Lean 4 theorem + differential correspondence", "5/C19"),
-    "C20": ("Lean theorem T_C20: a sequence of expansions yields, at every position, the expansion of that input alone (no state); "
-            "parameter naming does not depend on the set representation. The real macro is re-run in fresh processes with shuffled "
-            "order and different thread counts and compared token for token.",
-            "A pure Lean function is deterministic by construction; the content is the correspondence under permuted histories.",
-            "Lean 4 theorem + repeated-process differential runs", "5/C20"),
+    "C19": ("Lean theorem T_C19: the bounds on the macro's type parameter are absolute paths or 'static; the self type is EntraitT, ::entrait::Impl<EntraitT> or the user's; what the macro requires of T in trait mode is an absolute path or one of the user's own trait names; every delegating body is one of the recognised call shapes (which name only the callee, the method's parameters, self/Self/__impl/EntraitT and ::core paths); rewritten return types are the absolute impl ::core::future::Future form (from T_C12). Name resolution in a hostile scope (user items called Impl, Send, Sync, Future, AsRef, core, std, entrait, ...) is exercised with rustc by the probe p_c19_capture.",
+            "partial: that an absolute path cannot be captured is rustc's name resolution (sampled by the probe). Reserved names: EntraitT, __impl.",
+            'Lean 4 theorem (absolute-path predicates) + differential correspondence + rustc name-capture probe', "5/C19"),
+    "C20": ("The model's expand is a total Lean function of (variant, attribute, item) - no other input exists on the model side. Lean theorems T_C20_set_irrelevant / T_C20_fixParams_any_order / firstFree_least: the only hash-seeded structure of the implementation, the HashSet of reserved parameter names, is used through membership only (any enumeration of the set gives the same generated parameters) and the fuel-bounded search loops of the model equal the implementation's unbounded loops. That the implementation agrees with this function in fresh processes, with 1-16 threads, shuffled invocation order and perturbed environment is checked on every run (token equality against the model and between re-runs).",
+            "Process-level nondeterminism outside the macro (rustc's proc-macro server) is not exercised; the in-process engine and the re-runs are.",
+            'Lean 4 theorem (set-representation independence) + token-level correspondence + re-runs across processes/threads/orders', "5/C20"),
 }
 
 
